@@ -91,10 +91,10 @@ class Ctx:
         self.sources.append(spec)
         return sid
 
-    def pool(self, n=2, positive_first=False):
+    def pool(self, n=2, positive_first=False, maxn=3):
         """Inner/duration/closing sources: cold, short, optionally with a positive first event."""
         return [self.new_source("cold" if self.rng.random() < 0.85 else "sync" if not positive_first else "cold",
-                                positive_first=positive_first, prefix="p", maxn=3) for _ in range(n)]
+                                positive_first=positive_first, prefix="p", maxn=maxn) for _ in range(n)]
 
     def fn(self, kind, **kw):
         rng = self.rng
@@ -283,17 +283,17 @@ R("map_merge_mc", 1, lambda c: {"pool": c.pool(2), "f": c.fn("inner"), "mc": c.r
   lambda w, n, a, i: i[0].pipe(ops.map(F(w, n, a, "f")), ops.merge(max_concurrent=a["mc"])), {"cb", "pool"})
 R("map_switch_latest", 1, lambda c: {"pool": c.pool(2), "f": c.fn("inner")}, lambda w, n, a, i: i[0].pipe(ops.map(F(w, n, a, "f")), ops.switch_latest()), {"cb", "pool"})
 R("map_exclusive", 1, lambda c: {"pool": c.pool(2), "f": c.fn("inner")}, lambda w, n, a, i: i[0].pipe(ops.map(F(w, n, a, "f")), ops.exclusive()), {"cb", "pool"})
-R("expand_take", 1, lambda c: {"pool": c.pool(2), "f": c.fn("inner"), "n": c.rng.randrange(1, 6)},
+R("expand_take", 1, lambda c: {"pool": c.pool(2, True, 1), "f": c.fn("inner"), "n": c.rng.randrange(1, 6)},
   lambda w, n, a, i: i[0].pipe(ops.expand(F(w, n, a, "f")), ops.take(a["n"])), {"cb", "pool", "term"})
 
 # multicast forms that yield plain observables
 R("share", 1, lambda c: {}, lambda w, n, a, i: i[0].pipe(ops.share()), {"multicast"})
 R("publish_ref_count", 1, lambda c: {}, lambda w, n, a, i: i[0].pipe(ops.publish(), ops.ref_count()), {"multicast"})
-R("replay_ref_count", 1, lambda c: {"n": c.rng.choice([None, 1, 2])}, lambda w, n, a, i: i[0].pipe(ops.replay(buffer_size=a["n"], scheduler=w.s), ops.ref_count()), {"multicast"})
+R("replay_ref_count", 1, lambda c: {"n": c.rng.choice([None, 1, 2])}, lambda w, n, a, i: i[0].pipe(ops.replay(buffer_size=a["n"], scheduler=w.s), ops.ref_count()), {"multicast", "time"})
 R("publish_value_ref_count", 1, lambda c: {"v": vt.gen_value(c.rng, 0.5)}, lambda w, n, a, i: i[0].pipe(ops.publish_value(V(a["v"])), ops.ref_count()), {"multicast"})
 R("publish_mapper", 1, lambda c: {"f": c.fn("ident")}, lambda w, n, a, i: i[0].pipe(ops.publish(F(w, n, a, "f"))), {"multicast", "cb"})
 R("replay_mapper", 1, lambda c: {"f": c.fn("ident"), "n": c.rng.choice([None, 1])},
-  lambda w, n, a, i: i[0].pipe(ops.replay(buffer_size=a["n"], mapper=F(w, n, a, "f"), scheduler=w.s)), {"multicast", "cb"})
+  lambda w, n, a, i: i[0].pipe(ops.replay(buffer_size=a["n"], mapper=F(w, n, a, "f"), scheduler=w.s)), {"multicast", "cb", "time"})
 
 # scheduler hopping / resources
 R("observe_on", 1, lambda c: {}, lambda w, n, a, i: i[0].pipe(ops.observe_on(w.s)), {"time"})
@@ -389,12 +389,17 @@ def gen_program(ctx, depth, allow=None, max_sources=4, nary_p=0.3):
     return node
 
 
-def build(w, node):
+def build(w, node, taps=None):
+    """taps: optional {node id: list}; the output of that node is wrapped in a pass-through
+    probe observable that logs (seq, t, kind, value, subscription index) of what flows out of it."""
     if isinstance(node, str):
         return w.sources[node]
     r = ROWS[node["op"]]
-    ins = [build(w, x) for x in node["in"]]
-    return r.build(w, node["id"], node["a"], ins)
+    ins = [build(w, x, taps) for x in node["in"]]
+    obs = r.build(w, node["id"], node["a"], ins)
+    if taps is not None and node["id"] in taps:
+        obs = vt.Tap(w, obs, taps[node["id"]])
+    return obs
 
 
 def ops_of(node, acc=None):
@@ -422,3 +427,23 @@ def prune_sources(sc):
     used = set(sources_of(sc["program"]))
     sc["sources"] = [s for s in sc["sources"] if s["id"] in used]
     return sc
+
+
+def sites_of(node, acc=None):
+    """Callback sites '<node id>.<arg>' of a program."""
+    acc = [] if acc is None else acc
+    if isinstance(node, dict):
+        for k, v in sorted(node.get("a", {}).items()):
+            if isinstance(v, dict) and "k" in v:
+                acc.append("%s.%s" % (node["id"], k))
+        for x in node["in"]:
+            sites_of(x, acc)
+    return acc
+
+
+R("rx.on_error_resume_next_factory", 2, lambda c: {"f": c.fn("action")},
+  lambda w, n, a, i: rx.on_error_resume_next(i[0], lambda e: (F(w, n, a, "f")(), i[1])[1]), {"cb"})
+
+# operators that do not pass an upstream on_error through unchanged (used by C09 to pick fault sites)
+ERROR_OPAQUE = {"catch", "rx.catch", "rx.catch_with_iterable", "catch_handler", "retry", "on_error_resume_next",
+                "rx.on_error_resume_next", "rx.on_error_resume_next_factory", "materialize", "dematerialize"}
